@@ -192,7 +192,7 @@ theorem waitpoolOne_inv (c : Cfg) (nodes0 : List NodeSt) (s : SchedSt) (p : Int)
     · exact h
     · have := lazyBisect_inv c nodes0
         (sortDesc (fun r => r.ranks * r.cpr * r.gpr)
-          ((poolOf s.waitpool p).filter (fun r => match r.env with | some e => decide (e ∈ s.envs) | none => true))) s h
+          ((poolOf s.waitpool p).filter (envOk s.envs))) s h
       exact this.of_same ⟨rfl, rfl, rfl⟩
 
 theorem scheduleWaitpool_inv (c : Cfg) (nodes0 : List NodeSt) (s : SchedSt) (h : SInv nodes0 s) :
